@@ -120,6 +120,44 @@ func vfH_C05_pac() {
 	vfrt.Assert(err2 != nil, "pac/script-error-fails-the-request")
 }
 
+//vf:assume C05-pac-kerberos: the same PAC route selection with Kerberos authentication towards the upstream proxy switched on (a stub adapter whose configuration has AuthUpstreamProxy set; tickets and the KDC are outside): answers from the concrete pool; DIRECT still means direct, a proxy entry is selected without userinfo, nothing crashes
+
+type vfKerberos struct{ cfg KerberosConfig }
+
+func (k *vfKerberos) ConnectToKDC() error { return nil }
+func (k *vfKerberos) GetSPNForHost(hostname string) (string, error) {
+	return "", errors.New("no ticket")
+}
+func (k *vfKerberos) GetSPNEGOHeaderValue(spn string) (string, error) {
+	return "", errors.New("no ticket")
+}
+func (k *vfKerberos) GetConfig() *KerberosConfig { return &k.cfg }
+func (k *vfKerberos) GetProxyAuthHeader(_ context.Context, _ *url.URL, _ string) (http.Header, error) {
+	return http.Header{}, nil
+}
+
+//vf:harness property=C05 nopanic reach=pac-kerberos-direct,pac-kerberos-proxy
+func vfH_C05_pac_kerberos() {
+	s := vfPACPool[vfrt.Choice("answer", len(vfPACPool))]
+	pr := &vfPAC{answer: s}
+	cfg := HTTPProxyConfig{}
+	cfg.Name = "fw"
+	hp := &HTTPProxy{config: cfg, log: vfLog{}, pac: pr, kerberosAdapter: &vfKerberos{cfg: KerberosConfig{AuthUpstreamProxy: true}}}
+	req := &http.Request{Method: "GET", URL: &url.URL{Scheme: "http", Host: "example.com", Path: "/"}, Host: "example.com"}
+	u, err := hp.pacProxy(req)
+	scheme, hostport, direct, fail := vfSpecRoute(s)
+	switch {
+	case fail:
+		vfrt.Assert(err != nil, "pac-kerberos/unparsable-or-unsupported-entry-fails-the-request")
+	case direct:
+		vfrt.Reach("pac-kerberos-direct")
+		vfrt.Assert(err == nil && u == nil, "pac-kerberos/direct-means-direct")
+	default:
+		vfrt.Reach("pac-kerberos-proxy")
+		vfrt.Assert(err == nil && u != nil && u.Scheme == scheme && u.Host == hostport && u.User == nil, "pac-kerberos/proxy-entry-selected-without-userinfo")
+	}
+}
+
 type vfVerdict struct {
 	v    bool
 	seen *[]string
